@@ -16,7 +16,7 @@ RULE = ('Generated case (refs/c05_tankgen.py) = reservoir feeding 1-4 junctions 
         'through a head pump (1- or 3-point curve, lift 6-25 m) or a long pipe, 1-3 tanks (cylindrical or 1-4 segment volume curve starting at 0 or '
         'min_level and ending at max_level or 1 m above it; init level anywhere incl. exactly min/max; area from a '
         'drawn traverse time of 1-8 h) each with 1-3 links (pipe either direction, CV pipe in/out, pump in/out, '
-        'initially closed pipe; 1 case in 4 with >= 2 tanks also a tank-to-tank pipe), demand patterns with multipliers 0.05-3.6, 0-3 tank-level/pressure controls; '
+        'initially closed pipe; 1 case in 4 with >= 2 tanks also a tank-to-tank pipe), demand patterns with multipliers 0.05-3.6, 0-3 tank-level/pressure controls, in one case in three 1-4 time controls at arbitrary instants with priorities 0-6; '
         'duration 12-72 h, hydraulic step 900-7200 s (<= 100 steps), DD (15 % PDD). Oracle per tank and per pair '
         'of consecutive rows. Non-trivial = converged run in which some tank reaches a level limit (within 1 mm) or '
         'a partial (off-grid) step is reported; distinct = SHA-1 of the case.')
@@ -62,6 +62,16 @@ def strategy(draw, tier='quick'):
                       'end': draw(st.sampled_from([None, None, dur // 2 + 900]))}
         if tk['leak']['start'] is not None and tk['leak']['end'] is not None and tk['leak']['end'] <= tk['leak']['start']:
             tk['leak']['end'] = None
+    if draw(st.integers(0, 2)) == 0:
+        # time controls at arbitrary instants (mostly inside a hydraulic step) with explicit priorities, also below the
+        # medium priority of the simulator's own tank-limit controls: a limit reached earlier in the same step must win
+        links = [l for l in case['pipes'] + case['pumps'] if not l.get('cv')]
+        dur = case['opts']['duration']
+        for _ in range(draw(st.integers(1, 4)) if links else 0):
+            l = draw(st.sampled_from(links))
+            case['controls'].append({'kind': 'time', 'at': draw(st.integers(1, max(1, dur - 1))), 'link': l['name'],
+                                     'attr': 'status', 'value': draw(st.sampled_from(['OPEN', 'CLOSED'])),
+                                     'priority': draw(st.sampled_from([None, 0, 1, 2, 4, 6]))})
     h = S.draw_history(draw, st, case['opts'])
     if h:
         case['history'] = h
